@@ -5,4 +5,5 @@ import "verif/harness/internal/pipelinex"
 func init() {
 	register("pipeline-probe", func(a []string) { pipelinex.Probe() })
 	register("replay-pipeline", func(a []string) { pipelinex.Main(a) })
+	register("tamper", func(a []string) { pipelinex.TamperMain(a) })
 }
